@@ -32,7 +32,7 @@ ASSUMPTIONS = ['truth comes from aegmon/refs/render.py + wcs_zenithal.py (cross-
                'pull scale 1.4826*MAD exceeds 2.2; SNR 40-300 only; noise matched to the mode']
 MIN_REACH = {'source_finder:SourceFinder.find_sources_in_image': 1, 'source_finder:SourceFinder._fit_island': 1,
              'fitting:do_lmfit': 1}
-MIN_COUNTERS = {'nf_judged': 20, 'noisy_trials': 100, 'nf_cube_cases_plane_above_0': 4, 'nf_psfmap_judged': 6}
+MIN_COUNTERS = {'nf_judged': 20, 'noisy_trials': 100, 'nf_cube_cases_plane_above_0': 4, 'nf_psfmap_judged': 6, 'nf_user_beam_cases': 5, 'nf_mas_pixel_cases': 5}
 BATCHES_PER_JOB = 6
 KEY_D25 = 'amplitude-bound-excludes-truth'
 KEY_SPLIT = 'pixel-noise-local-maxima-split-source'
@@ -49,9 +49,11 @@ def sys_path_repo():
 
 
 # ------------------------------------------------------------------------------------------ generator
-def gen_source_case(rng, noisy=False, d25=False, big_ok=True):
+def gen_source_case(rng, noisy=False, d25=False, big_ok=True, mas=False):
     proj = str(rng.choice(wz.PROJECTIONS))
     scale = float(10 ** rng.uniform(np.log10(1.0), np.log10(60.0)) / 3600.0)
+    if mas:
+        scale = float(10 ** rng.uniform(np.log10(0.2e-3), np.log10(20e-3)) / 3600.0)      # VLBI: 0.2 - 20 mas per pixel
     rows, cols = int(rng.integers(56, 90)), int(rng.integers(56, 90))
     dec_kind = rng.random()
     if dec_kind < 0.25:
@@ -203,6 +205,20 @@ def cases(seed, tier):
         c['psfmap'] = {'quadrants': quads, 'n': [int(rng.choice([36, 40, 48])), int(rng.choice([30, 40, 44]))]}
         c.update(kind='nf', via='cli' if i % 4 == 3 else 'api', stratum='psfmap')
         out.append(c)
+    # the beam given by the caller (API beam=, CLI --beam) while the header carries another one, or none
+    n_ub = 10 if tier == 'quick' else 100
+    for i in range(n_ub):
+        c = gen_source_case(rng, big_ok=False)
+        c['user_beam'] = True
+        c['header_beam'] = None if i % 3 == 0 else [c['beam'][0] * 0.75, c['beam'][1] * 0.7, c['beam'][2] + 30.0 - (180.0 if c['beam'][2] + 30.0 > 90 else 0.0)]
+        c.update(kind='nf', via='cli' if i % 4 == 3 else 'api', stratum='userbeam')
+        out.append(c)
+    # milli-arcsecond pixels, results read from the table file the command line writes (csv, tab, VOTable)
+    n_mas = 9 if tier == 'quick' else 90
+    for i in range(n_mas):
+        c = gen_source_case(rng, big_ok=False, mas=True)
+        c.update(kind='nf', via='cli', stratum='mas', table_ext=['vot', 'csv', 'tab'][i % 3])
+        out.append(c)
     n_d25 = 30 if tier == 'quick' else 300
     for i in range(n_d25):
         c = gen_source_case(rng, d25=True)
@@ -288,6 +304,14 @@ def run_finder(case, img, h, rms, sc, bane=False, cores=1, bkg_internal=False):
     """-> list of dict rows (the catalogue), or raises"""
     from astropy.io import fits
     fn = os.path.join(sc, 'im.fits')
+    if case.get('user_beam'):
+        h = h.copy() if hasattr(h, 'copy') else dict(h)
+        for k_, v_ in zip(('BMAJ', 'BMIN', 'BPA'), case['header_beam'] or (None, None, None)):
+            if v_ is None:
+                if k_ in h:
+                    del h[k_]
+            else:
+                h[k_] = v_
     cube = case.get('cube')
     if cube:
         planes = []
@@ -303,10 +327,13 @@ def run_finder(case, img, h, rms, sc, bane=False, cores=1, bkg_internal=False):
     psf_fn = case.get('psf_file')
     if case.get('via') == 'cli':
         repo = sys_path_repo()
-        tab = os.path.join(sc, 'out.csv')
+        ext = case.get('table_ext', 'csv')
+        tab = os.path.join(sc, 'out.' + ext)
         cmd = [sys.executable, '-c',
                'import sys; sys.path.insert(0, %r); from AegeanTools.CLI import aegean; sys.exit(aegean.main(sys.argv[1:]))' % repo,
                fn, '--table', tab, '--cores', '1', '--negative']
+        if case.get('user_beam'):
+            cmd += ['--beam'] + [repr(float(v)) for v in case['beam']]
         if not bane:
             cmd += ['--forcerms', repr(float(rms))] + ([] if bkg_internal else ['--forcebkg', '0'])
         if not case['docov']:
@@ -316,13 +343,13 @@ def run_finder(case, img, h, rms, sc, bane=False, cores=1, bkg_internal=False):
         if psf_fn:
             cmd += ['--psf', psf_fn]
         p = subprocess.run(cmd, stdout=subprocess.PIPE, stderr=subprocess.STDOUT, timeout=600, cwd=sc)
-        comp = os.path.join(sc, 'out_comp.csv')
+        comp = os.path.join(sc, 'out_comp.' + ext)
         if not os.path.exists(comp):
             if p.returncode != 0:
                 raise SubjectError('aegean CLI exit %d: %s' % (p.returncode, p.stdout.decode(errors='replace')[-800:]))
             return []
         from astropy.table import Table
-        t = Table.read(comp, format='ascii.csv')
+        t = Table.read(comp, format={'csv': 'ascii.csv', 'tab': 'ascii.tab', 'vot': 'votable'}[ext])
         return [{k: (t[k][i].item() if hasattr(t[k][i], 'item') else t[k][i]) for k in t.colnames} for i in range(len(t))]
     from AegeanTools.source_finder import SourceFinder
     import logging
@@ -334,6 +361,9 @@ def run_finder(case, img, h, rms, sc, bane=False, cores=1, bkg_internal=False):
             kw.update(bkg=0.0)
     if cube:
         kw.update(cube_index=cube['index'])
+    if case.get('user_beam'):
+        from AegeanTools.wcs_helpers import Beam
+        kw.update(beam=Beam(*[float(v) for v in case['beam']]))
     if psf_fn:
         kw.update(imgpsf=psf_fn)
     srcs = sf.find_sources_in_image(fn, **kw)
@@ -483,6 +513,12 @@ def _run_nf(o, case, sc):
     wit = {'case': {k: case[k] for k in ('proj', 'crval', 'crpix', 'scale', 'shape', 'beam', 'index', 'docov', 'via', 'flip_dec', 'use_cd') if k in case},
            'truth': truth, 'forced_rms': rms, 'peak_pixel': peakpix, 'amp_bound_excludes_truth': bool(excluded)}
     armed = case.get('via') != 'cli'
+    if case.get('user_beam'):
+        wit['header_beam'] = case['header_beam']
+        o.count('nf_user_beam_cases')
+    if case.get('stratum') == 'mas':
+        o.count('nf_mas_pixel_cases')
+        o.see('table_format_read', case.get('table_ext'))
     if case.get('cube'):
         wit['cube'] = case['cube']
         o.count('nf_cube_cases')
